@@ -54,6 +54,9 @@ Section IterD.
 Variable e : env.
 Hypothesis He : wf_env e.
 Hypothesis Hk : e_kind e = KIter.
+(** the wrapped iterator is fused, or its size hint is not exact (the length queries then never read the
+    reserved counter: they answer zero when the completed flag is up and "unknown" otherwise) *)
+Hypothesis Hgen : fused e \/ e_hint e <> HExact.
 Variable L : list tid.
 Hypothesis NDL : NoDup L.
 
@@ -61,7 +64,7 @@ Hypothesis NDL : NoDup L.
     and the thread has still to test it, or its reservation lies beyond the end of the source *)
 Definition NT2 (sh : shared) (p : pc) : Prop :=
   s_cur sh = e_len e \/ (s_f sh = true /\ before_gate p = true) \/
-  (e_len e <= s_c sh /\ forall b n, ticket p = Some (b, n) -> e_len e <= b).
+  (e_hint e = HExact /\ e_len e <= s_c sh /\ forall b n, ticket p = Some (b, n) -> e_len e <= b).
 
 Definition zr_ok (tr : list event) (sh : shared) (t : tid) (ts : tstate) : Prop :=
   match pend_call t tr with
@@ -73,7 +76,8 @@ Record IInvD (c : cfg) : Prop := {
   d_sk   : has_skip (c_trace c) = true ->
            skip_returned (c_trace c) = true \/ exists u, In u L /\ t_pc (c_pool c u) = PSkip;
   d_es   : end_reported_strong (c_trace c) = true -> s_f (c_sh c) = true;
-  d_rep  : forall m, min_reported (c_trace c) = Some m -> s_f (c_sh c) = true \/ k_len e (s_c (c_sh c)) <= m;
+  d_rep  : forall m, min_reported (c_trace c) = Some m ->
+             s_f (c_sh c) = true \/ (e_hint e = HExact /\ k_len e (s_c (c_sh c)) <= m);
   d_len2 : forall t hm, t_pc (c_pool c t) = PLen2 hm ->
              e_hint e = HExact /\
              forall o older m, pend_call t (c_trace c) = Some (o, older) -> min_reported older = Some m ->
@@ -87,7 +91,7 @@ Lemma NT2_mono sh sh' p :
   (s_f sh = true -> s_f sh' = true) -> (s_cur sh = e_len e -> s_cur sh' = e_len e) -> s_c sh <= s_c sh' ->
   NT2 sh p -> NT2 sh' p.
 Proof.
-  intros Sf Sc Sm [H|[[H1 H2]|[H1 H2]]]; [left; auto|right; left; auto|right; right]. split; [lia|exact H2].
+  intros Sf Sc Sm [H|[[H1 H2]|(H0 & H1 & H2)]]; [left; auto|right; left; auto|right; right]. split; [exact H0|split; [lia|exact H2]].
 Qed.
 
 Lemma iD_commit c t sh' ts' l evs :
@@ -97,7 +101,7 @@ Lemma iD_commit c t sh' ts' l evs :
   (has_skip (evs ++ c_trace c) = true ->
      skip_returned (evs ++ c_trace c) = true \/ exists u, In u L /\ t_pc (upd (c_pool c) t ts' u) = PSkip) ->
   (end_reported_strong (evs ++ c_trace c) = true -> s_f sh' = true) ->
-  (forall m, min_reported (evs ++ c_trace c) = Some m -> s_f sh' = true \/ k_len e (s_c sh') <= m) ->
+  (forall m, min_reported (evs ++ c_trace c) = Some m -> s_f sh' = true \/ (e_hint e = HExact /\ k_len e (s_c sh') <= m)) ->
   (forall hm, t_pc ts' = PLen2 hm ->
      e_hint e = HExact /\
      forall o older m, pend_call t (evs ++ c_trace c) = Some (o, older) -> min_reported older = Some m ->
@@ -141,9 +145,9 @@ Qed.
 
 Lemma drep_keep c sh' :
   IInvD c -> (s_f (c_sh c) = true -> s_f sh' = true) -> s_c (c_sh c) <= s_c sh' ->
-  forall m, min_reported (c_trace c) = Some m -> s_f sh' = true \/ k_len e (s_c sh') <= m.
+  forall m, min_reported (c_trace c) = Some m -> s_f sh' = true \/ (e_hint e = HExact /\ k_len e (s_c sh') <= m).
 Proof.
-  intros I Sf Sm m Hm. destruct (d_rep c I m Hm) as [H|H]; [left; auto|right].
+  intros I Sf Sm m Hm. destruct (d_rep c I m Hm) as [H|[H0 H]]; [left; auto|right]. split; [exact H0|].
   pose proof (k_len_mono e _ _ Sm). lia.
 Qed.
 
@@ -184,9 +188,9 @@ Proof.
   destruct (pend_call t (c_trace c)) as [[o older]|]; [|exact I0].
   intros Hz. destruct (H Hz) as (Hn1 & Hn2 & Hn3). cbn [set_pc t_pc t_acc].
   split; [|split; [destruct Hg as [Hg|Hg]; rewrite Hg; [reflexivity|exact Hn2]|exact Hn3]].
-  unfold NT2 in *. destruct Hn1 as [H1|[[H1 H2]|[H1 H2]]]; [left; auto| |].
+  unfold NT2 in *. destruct Hn1 as [H1|[[H1 H2]|(H0 & H1 & H2)]]; [left; auto| |].
   - destruct (Hbg H2) as [H3|H3]; [right; left; split; auto|congruence].
-  - right; right. split; [lia|]. intros b n Hb. destruct (Htk b n Hb) as [H3|H3]; [eapply H2; exact H3|lia].
+  - right; right. split; [exact H0|]. split; [lia|]. intros b n Hb. destruct (Htk b n Hb) as [H3|H3]; [eapply H2; exact H3|lia].
 Qed.
 
 
@@ -218,9 +222,9 @@ Proof.
     + unfold zr_ok. cbn [app]. rewrite pend_call_self_call. cbn [t_pc t_acc]. intros Hz.
       assert (Hg : got_of p = []) by (destruct p; try reflexivity; discriminate Cp).
       split; [|split; [exact Hg|reflexivity]].
-      apply zero_reported_min in Hz. destruct (d_rep c I 0 Hz) as [Hf|Hl].
+      apply zero_reported_min in Hz. destruct (d_rep c I 0 Hz) as [Hf|[Hx Hl]].
       * right; left. split; [exact Hf|]. destruct p; try reflexivity; try discriminate Cp; contradiction.
-      * right; right. split; [apply k_len_zero; exact Hl|]. intros b0 n0 Hb. rewrite Tp in Hb. discriminate.
+      * right; right. split; [exact Hx|]. split; [apply k_len_zero; exact Hl|]. intros b0 n0 Hb. rewrite Tp in Hb. discriminate.
     + cbn [app]. rewrite all_rets_call. apply (d_evs c I).
   - assert (Hall : null_pair o r = true /\ o <> Skip /\
                    end_reported_strong (ERet t r d :: ECall t o :: c_trace c) = end_reported_strong (c_trace c)).
@@ -387,7 +391,6 @@ Proof.
   assert (Tt : ticket (pcs_of c t) = Some (b, pub_incr q)) by (unfold pcs_of; rewrite Hpc; reflexivity).
   assert (Ct : in_crit (pcs_of c t) = true) by (unfold pcs_of; rewrite Hpc; reflexivity).
   pose proof (a_prot e L c A) as P.
-  pose proof (p_got _ _ _ _ _ P t _ _ Ct Tt) as [_ Hcur]. unfold pcs_of in Hcur. rewrite Hpc in Hcur. cbn [got_of] in Hcur.
   pose proof (p_cur _ _ _ _ _ P) as Hcl.
   assert (Hnsk : t_pc (c_pool c t) <> PSkip) by (rewrite Hpc; discriminate).
   assert (Hsame : forall x calls l, got_of x = g \/ got_of x = [] -> ticket x = Some (b, pub_incr q) -> (forall hm, x <> PLen2 hm) ->
@@ -404,9 +407,8 @@ Proof.
   unfold step. rewrite Hpc.
   destruct (crashes_now e (c_sh c)).
   - apply Hsame; [left; reflexivity|reflexivity|discriminate|discriminate].
-  - unfold src_next. destruct (N.ltb_spec (s_cur (c_sh c)) (e_len e)) as [Hsl|Hsl].
-    + assert (Hc : s_cur (c_sh c) = b + N.of_nat (length g)) by (destruct Hcur as [H|[_ H]]; [exact H|lia]).
-      assert (Hgo : forall x, (forall hm, x <> PLen2 hm) -> (forall q' b' k, x = PPub q' b' [] -> q_mode q' = MChunk k -> False) ->
+  - destruct (src_next_cases e (c_sh c)) as [[Es Hsl]|[Es _]]; rewrite Es.
+    + assert (Hgo : forall x, (forall hm, x <> PLen2 hm) -> (forall q' b' k, x = PPub q' b' [] -> q_mode q' = MChunk k -> False) ->
                 IInvD (commit c t (with_src (c_sh c) (s_cur (c_sh c) + 1) (s_calls (c_sh c) + 1)) (set_pc (c_pool c t) x)
                               (LSrc t (Some (s_cur (c_sh c)))) [])).
       { intros x Hx Hpb. apply iD_silent; try assumption; cbn [with_src s_f s_cur s_c]; auto.
@@ -417,7 +419,10 @@ Proof.
         - pose proof (d_zr c I t) as H. unfold zr_ok in *.
           destruct (pend_call t (c_trace c)) as [[o older]|]; [|exact I0].
           intros Hz. exfalso. destruct (H Hz) as (Hn1 & _ & _). unfold NT2 in Hn1. rewrite Hpc in Hn1. cbn [before_gate ticket] in Hn1.
-          destruct Hn1 as [H1|[[_ H1]|[_ H1]]]; [lia|discriminate|]. specialize (H1 _ _ eq_refl). lia. }
+          destruct Hn1 as [H1|[[_ H1]|(Hxe & _ & H1)]]; [lia|discriminate|]. specialize (H1 _ _ eq_refl).
+          destruct Hgen as [Hfu|Hne]; [|contradiction].
+          pose proof (p_got _ _ _ _ _ (a_protF e L c A Hfu) t _ _ Ct Tt) as [_ Hcur]. unfold pcs_of in Hcur. rewrite Hpc in Hcur. cbn [got_of] in Hcur.
+          destruct Hcur as [Hcu|[_ Hcu]]; lia. }
       destruct (q_mode q).
       * apply Hgo; discriminate.
       * destruct (N.of_nat (length (s_cur (c_sh c) :: g)) =? q_n q); apply Hgo; discriminate.
@@ -451,33 +456,32 @@ Qed.
 
 (** ** a pull returns elements *)
 
-Lemma iD_finish_got c t q b g cnt :
-  IInvA e L c -> IInvD c -> In t L -> t_pc (c_pool c t) = PPub q b g ->
-  b = s_y (c_sh c) -> cnt = N.of_nat (length g) -> 1 <= cnt -> cnt <= q_n q -> b + cnt = s_cur (c_sh c) -> b < e_len e ->
-  (cnt < q_n q -> b + cnt = e_len e) -> (forall v, q_mode q = MSingle v -> cnt = 1) ->
-  IInvD (finish e c t (with_y (c_sh c) (b + q_n q)) (c_pool c t) (LAtom t SY AAdd (q_n q) b (o_pub q)) q
-                (Ok (PRGot b [mk_run (Some b) (val_of e b) cnt] cnt))).
+Lemma iD_finish_got c t q b g l :
+  IInvA e L c -> IInvD c -> In t L -> t_pc (c_pool c t) = PPub q b g -> g <> [] ->
+  IInvD (finish e c t (with_y (c_sh c) (b + q_n q)) (c_pool c t) l q
+                (Ok (PRGot b (runs_of b (rev g)) (N.of_nat (length g))))).
 Proof.
-  intros A I Hin Hpc Hb Hcnt Hk1 Hcn Hbc Hbl Hsh Hone.
+  intros A I Hin Hpc Hgne.
   assert (Hreq : req_of (t_pc (c_pool c t)) = Some q) by (rewrite Hpc; reflexivity).
   destruct (pull_ctx e L c t q A Hreq) as (o & older & Hpend & Hres & Hsplit & Hsuf & Hns).
   destruct (ipc_req e L c t q A Hreq) as [Hq Hacc].
   assert (Hnsk : t_pc (c_pool c t) <> PSkip) by (rewrite Hpc; discriminate).
   pose proof (d_zr c I t) as Hzr. unfold zr_ok in Hzr. rewrite Hpend in Hzr.
-  assert (Hgne : g <> []) by (intros ->; cbn [length] in Hcnt; lia).
-  pose proof (p_cur _ _ _ _ _ (a_prot e L c A)) as Hcl.
   assert (Hnz : zero_reported older = false).
   { destruct (zero_reported older); [|reflexivity]. destruct (Hzr eq_refl) as (_ & H2 & _). rewrite Hpc in H2. cbn [got_of] in H2. contradiction. }
+  assert (Hrsn : runs_of b (rev g) <> []).
+  { destruct (rev g) as [|v vs] eqn:Er; [|apply runs_of_nonnil].
+    exfalso. apply Hgne. rewrite <- (rev_involutive g), Er. reflexivity. }
   unfold finish, deliver. destruct (q_ctx q) as [|lk crash] eqn:Ctx.
-  - destruct (deliver_top_iter e Hk (c_pool c t) q b cnt Hbl Hk1 Hq Hone Hcn ltac:(lia) Hsh)
-      as (ts' & r & d & -> & Hp' & Ha' & Ht' & Hb' & Hbc' & Hne & Hnp & Hla & Hidx & Hchk & took & Htk & Hcov).
+  - destruct (deliver_top_gen e Hk (c_pool c t) q b _ (N.of_nat (length g)) Hrsn)
+      as (ts' & r & d & -> & Hp' & Ha' & Ht' & Hb' & Hbc' & Hne & Hnp & Hla).
     cbn [ret_ev]. apply iD_ret with o older; try assumption; cbn [with_y s_f s_cur s_c]; auto.
     + lia.
     + rewrite Hnz. discriminate.
     + rewrite (esr_ret_noend _ _ _ _ Hne). apply (d_es c I).
   - destruct (loop_ops_iter e Hk _ _ _ _ _ Hres Ctx) as (cc & -> & Hcc).
     unfold deliver_loop.
-    destruct (loop_invoke_cases e lk crash (total_cnt (t_acc (c_pool c t))) b cnt Hbl Hk1) as (inv & pan & -> & Hi1 & Hi2 & Hinv).
+    destruct (loop_invoke lk crash (total_cnt (t_acc (c_pool c t))) (runs_of b (rev g)) (N.of_nat (length g))) as [inv pan].
     destruct pan as [used|].
     + cbn [ret_ev]. apply iD_ret with (Loop lk cc crash) older; try assumption; cbn [with_y s_f s_cur s_c]; auto.
       * lia.
@@ -496,8 +500,9 @@ Lemma iD_pub c t q b g :
   s_y (c_sh c) + pub_incr q < W -> IInvD (step e c t).
 Proof.
   intros A I Hin Hpc Hw.
-  destruct (pub_eq e Hk L c t q b g A Hpc Hw) as (Hb & Hq & [(Hg & Hex & ->)|(cnt & Hcnt & Hk1 & Hcn & Hbc & Hbl & Hsh & Hone & ->)]).
-  - subst g. apply iD_finish_end; try assumption; cbn [with_y s_f s_cur s_c]; auto.
+  destruct (pub_step e L c t q b g A Hpc Hw) as (Hb & Hq & ->).
+  destruct g as [|g0 g'].
+  - apply iD_finish_end; try assumption; cbn [with_y s_f s_cur s_c]; auto.
     + rewrite Hpc. reflexivity.
     + lia.
     + destruct (q_mode q) eqn:M.
@@ -505,7 +510,7 @@ Proof.
         destruct Hok as (_ & _ & _ & Hg1). specialize (Hg1 v M). discriminate Hg1.
       * left. apply (d_pub c I t q b k Hpc M).
       * right. eauto.
-  - apply iD_finish_got with g; assumption.
+  - apply iD_finish_got; try assumption. discriminate.
 Qed.
 
 (** ** unwinding from a panic of the wrapped iterator *)
@@ -574,8 +579,8 @@ Lemma quiet_facts c t hm o older :
   pend_call t (c_trace c) = Some (o, older) ->
   (n_pending older =? 0)%Z && called_last t (c_trace c) && negb (has_panic older) = true ->
   iv_total (cov e older) = s_cur (c_sh c) /\
-  (s_f (c_sh c) = true -> skip_returned older = true \/ s_cur (c_sh c) = e_len e) /\
-  (s_f (c_sh c) = false -> s_cur (c_sh c) = s_c (c_sh c) \/ s_cur (c_sh c) = e_len e).
+  (fused e -> s_f (c_sh c) = true -> skip_returned older = true \/ s_cur (c_sh c) = e_len e) /\
+  (fused e -> s_f (c_sh c) = false -> s_cur (c_sh c) = s_c (c_sh c) \/ s_cur (c_sh c) = e_len e).
 Proof.
   intros A B C I Hin Hpcs Hpend G.
   apply andb_true_iff in G. destruct G as [G Gp]. apply andb_true_iff in G. destruct G as [Gn Gc].
@@ -602,18 +607,18 @@ Proof.
   assert (Hcr : forall u, in_crit (pcs_of c u) = false).
   { intros u. unfold pcs_of. destruct (Nat.eq_dec u t) as [->|Hu]; [destruct Hpcs as [-> | ->]; reflexivity|rewrite (Hpcu u Hu); reflexivity]. }
   split; [|split].
-  - pose proof (a_til e L c A) as T. rewrite Hhelds, app_nil_r, Hcovt in T. apply (tl_total _ _ _ T).
+  - pose proof (a_cnt e L c A) as T. rewrite Hhelds, app_nil_r, Hcovt in T. apply T.
     unfold npanic. rewrite Hhp, Gp. reflexivity.
-  - intros Hf. destruct (b_f e c B Hf) as [H|[H|H]]; [right; exact H| |rewrite Hhp, Gp in H; discriminate].
+  - intros Hfu Hf. destruct (b_f e c B Hfu Hf) as [H|[H|H]]; [right; exact H| |rewrite Hhp, Gp in H; discriminate].
     left. rewrite <- Hsr. destruct (d_sk c I H) as [H'|(u & Hu & Hpu)]; [exact H'|exfalso].
     destruct (Nat.eq_dec u t) as [->|Hut]; [destruct Hpcs as [H1|H1]; rewrite H1 in Hpu; discriminate|].
     rewrite (Hpcu u Hut) in Hpu. discriminate.
-  - intros Hf. pose proof (a_prot e L c A) as P. pose proof (p_le _ _ _ _ _ P) as Hle.
+  - intros Hfu Hf. pose proof (a_prot e L c A) as P. pose proof (p_le _ _ _ _ _ P) as Hle.
     assert (Hyc : s_y (c_sh c) = s_c (c_sh c)).
     { destruct (N.lt_ge_cases (s_y (c_sh c)) (s_c (c_sh c))) as [Hlt|Hge]; [exfalso|lia].
       destruct (C Hf (s_y (c_sh c)) ltac:(lia)) as (u & b0 & n0 & Tu & _).
       pose proof (Htk u) as Hn. unfold pcs_of in Hn. rewrite Hn in Tu. discriminate. }
-    destruct (p_pos _ _ _ _ _ P Hcr) as [H|[H|[H1 _]]]; [left; lia|right; exact H|lia].
+    destruct (p_pos _ _ _ _ _ (a_protF e L c A Hfu) Hcr) as [H|[H|[H1 _]]]; [left; lia|right; exact H|lia].
 Qed.
 
 (** the per-event check of a length answer *)
@@ -647,7 +652,7 @@ Qed.
 Lemma iD_len_ret c t hm (a : option N) l :
   IInvA e L c -> IInvD c -> In t L ->
   is_idle (c_pool c t) = false -> entry_of (t_pc (c_pool c t)) = PLen hm ->
-  (forall n, a = Some n -> s_f (c_sh c) = true \/ k_len e (s_c (c_sh c)) <= n) ->
+  (forall n, a = Some n -> s_f (c_sh c) = true \/ (e_hint e = HExact /\ k_len e (s_c (c_sh c)) <= n)) ->
   ev_C11 e t (len_res hm a) [] (c_trace c) = true ->
   IInvD (commit c t (c_sh c) (set_pc (c_pool c t) PIdle) l [ERet t (len_res hm a) []]).
 Proof.
@@ -664,8 +669,8 @@ Proof.
              | idtac ].
   cbn [app min_reported]. destruct a as [n|].
   - rewrite len_answer_len_res. intros m Hm. destruct (min_reported (c_trace c)) as [m0|] eqn:Em.
-    + injection Hm as <-. destruct (Hrep n eq_refl) as [H|H]; [left; exact H|].
-      destruct (d_rep c I m0 Em) as [H'|H']; [left; exact H'|right; lia].
+    + injection Hm as <-. destruct (Hrep n eq_refl) as [H|[H0 H]]; [left; exact H|].
+      destruct (d_rep c I m0 Em) as [H'|[_ H']]; [left; exact H'|right; split; [exact H0|lia]].
     + injection Hm as <-. apply Hrep. reflexivity.
   - rewrite len_answer_len_none. apply (d_rep c I).
 Qed.
@@ -696,8 +701,11 @@ Proof.
     + apply ev_C11_len with o older; [exact Hsplit| |].
       * intros G. destruct (quiet_facts c t hm o older A B C I Hin (or_introl Hpc) Hpend G) as (Q1 & Q2 & Q3).
         split; [|reflexivity].
-        destruct (knows_len e); [|reflexivity]. apply N.eqb_eq.
-        destruct (Q2 Ef) as [H|H]; [rewrite H; reflexivity|]. destruct (skip_returned older); [reflexivity|]. rewrite Q1. lia.
+        destruct (knows_len e) eqn:Ekn; [|reflexivity]. apply N.eqb_eq.
+        assert (Hfu : fused e).
+        { destruct Hgen as [H|H]; [exact H|exfalso]. unfold knows_len in Ekn. rewrite Hk in Ekn.
+          destruct (e_hint e); [contradiction H; reflexivity|discriminate Ekn|discriminate Ekn]. }
+        destruct (Q2 Hfu Ef) as [H|H]; [rewrite H; reflexivity|]. destruct (skip_returned older); [reflexivity|]. rewrite Q1. lia.
       * intros n m E _. injection E as <-. lia.
   - destruct (e_hint e) eqn:Eh.
     + apply iD_silent; try assumption; auto.
@@ -705,7 +713,7 @@ Proof.
       * lia.
       * intros hm' _. split; [exact Eh|]. intros o' older' m Hp Hm. rewrite Hpend in Hp. injection Hp as <- <-.
         destruct (min_reported_suffix _ _ _ Hsuf Hm) as (m' & Em' & Hle).
-        destruct (d_rep c I m' Em') as [H|H]; [congruence|lia].
+        destruct (d_rep c I m' Em') as [H|[_ H]]; [congruence|lia].
       * intros q b k H; discriminate H.
       * apply zr_keep; try assumption; auto; try lia.
         intros b n H. discriminate H.
@@ -722,20 +730,21 @@ Proof.
   destruct (call_ctx e L c t A Hni) as (o & older & Hpend & Hres & Hsplit & Hsuf).
   destruct (d_len2 c I t hm Hpc) as [Eh Hm2].
   pose proof (b_len2 e c B t hm o older Hpc Hpend) as Hsk0.
-  pose proof (b_cs e c B) as Hcs.
+  assert (Hfu : fused e) by (destruct Hgen as [H|H]; [exact H|contradiction]).
+  pose proof (b_cs e c B Hfu) as Hcs.
   assert (Hkn : knows_len e = true) by (unfold knows_len; rewrite Hk, Eh; reflexivity).
   apply (iD_len_ret c t hm (Some (k_len e (s_c (c_sh c))))); try assumption.
-  - intros n' E. injection E as <-. right. lia.
+  - intros n' E. injection E as <-. right. split; [exact Eh|lia].
   - apply ev_C11_len with o older; [exact Hsplit| |].
     + intros G. destruct (quiet_facts c t hm o older A B C I Hin (or_intror Hpc) Hpend G) as (Q1 & Q2 & Q3).
       assert (Hrem : k_len e (s_c (c_sh c)) = e_len e - s_cur (c_sh c)).
       { unfold k_len. destruct (s_f (c_sh c)) eqn:Ef.
-        - destruct (Q2 eq_refl) as [H|H]; [congruence|]. destruct (N.ltb_spec (s_c (c_sh c)) (e_len e)); lia.
-        - destruct (Q3 eq_refl) as [H|H]; destruct (N.ltb_spec (s_c (c_sh c)) (e_len e)); lia. }
+        - destruct (Q2 Hfu eq_refl) as [H|H]; [congruence|]. destruct (N.ltb_spec (s_c (c_sh c)) (e_len e)); lia.
+        - destruct (Q3 Hfu eq_refl) as [H|H]; destruct (N.ltb_spec (s_c (c_sh c)) (e_len e)); lia. }
       split.
       * rewrite Hkn, Hsk0, Q1. apply N.eqb_eq. exact Hrem.
       * intros Es. pose proof (d_es c I (esr_suffix _ _ Hsuf Es)) as Hf.
-        destruct (Q2 Hf) as [H|H]; [congruence|]. f_equal. lia.
+        destruct (Q2 Hfu Hf) as [H|H]; [congruence|]. f_equal. lia.
     + intros n' m E Hmin. injection E as <-. apply (Hm2 o older m Hpend Hmin).
 Qed.
 
@@ -786,16 +795,30 @@ End IterD.
 
 (** ** C11 on every trace of the wrapper over an arbitrary iterator *)
 
-Theorem iter_C11 : forall e, iter_env e -> forall progs, wf_progs progs -> forall sched,
+Theorem iter_C11_gen : forall e, iter_env e -> fused e \/ e_hint e <> HExact -> forall progs, wf_progs progs -> forall sched,
   nowrap (c_labels (exec e (init progs) sched)) ->
   chk_C11 e (c_trace (exec e (init progs) sched)) = true.
 Proof.
-  intros e (He & Hk) progs Hp sched Hnw.
+  intros e (He & Hk) Hfu progs Hp sched Hnw.
   set (L := nodup Nat.eq_dec sched).
   assert (NDL : NoDup L) by apply NoDup_nodup.
   assert (Hs : Forall (fun t => In t L) sched) by (apply Forall_forall; intros t Ht; apply nodup_In; exact Ht).
-  destruct (iABCD_exec e Hk L NDL progs sched Hp Hs Hnw) as (_ & _ & _ & D).
+  destruct (iABCD_exec e Hk Hfu L NDL progs sched Hp Hs Hnw) as (_ & _ & _ & D).
   unfold chk_C11. apply (d_evs e L _ D).
 Qed.
 
+(** a fused wrapped iterator with any size hint *)
+Theorem iter_C11 : forall e, iter_env e -> fused e -> forall progs, wf_progs progs -> forall sched,
+  nowrap (c_labels (exec e (init progs) sched)) ->
+  chk_C11 e (c_trace (exec e (init progs) sched)) = true.
+Proof. intros e Hie Hfu. apply iter_C11_gen; [exact Hie|left; exact Hfu]. Qed.
+
+(** any wrapped iterator, fused or not, whose size hint is not exact: the length queries answer zero once the
+    completed flag is up and "unknown" before, and a zero is definitive *)
+Theorem iter_C11_inexact : forall e, iter_env e -> e_hint e <> HExact -> forall progs, wf_progs progs -> forall sched,
+  nowrap (c_labels (exec e (init progs) sched)) ->
+  chk_C11 e (c_trace (exec e (init progs) sched)) = true.
+Proof. intros e Hie Hne. apply iter_C11_gen; [exact Hie|right; exact Hne]. Qed.
+
 Print Assumptions iter_C11.
+Print Assumptions iter_C11_inexact.
